@@ -319,6 +319,40 @@ func propC15(a *Analysis, r *Registry) {
 					}()
 				}
 			})
+			// (a guard may be a small helper that panics: reached when the helper is called and its
+			// own condition holds, the parameters bound to the arguments of that call)
+			for _, hfc := range fc.BoundCallees(1)[1:] {
+				var sites []*ssa.Call
+				fc.Ctx.Instrs(func(in ssa.Instruction) {
+					if c, ok := in.(*ssa.Call); ok && c.Call.StaticCallee() == hfc.Fn {
+						sites = append(sites, c)
+					}
+				})
+				hfc := hfc
+				hfc.Ctx.Instrs(func(in ssa.Instruction) {
+					p, ok := in.(*ssa.Panic)
+					if !ok {
+						return
+					}
+					func() {
+						defer func() { recover() }()
+						// the context of this call site: BoundCallees gives one context per site, in order
+						for _, c := range sites {
+							same := true
+							for i, a := range c.Call.Args {
+								if i < len(hfc.bindArgs) && !fc.Sub(fc.Val(a)).Equal(hfc.bindArgs[i]) {
+									same = false
+								}
+							}
+							if same {
+								acc = S.Or(acc, S.And(fc.ReachCond(c.Block()), hfc.Sub(hfc.ReachCond(p.Block()))))
+								n++
+								break
+							}
+						}
+					}()
+				})
+			}
 			if n == 2 {
 				b.Eq("C-guard panics", name, b.pos(fn), acc, env, "len(xs)!=len(ys) || (weights!=nil && len(xs)!=len(weights))")
 			} else {
